@@ -1,4 +1,4 @@
-//go:build verif
+//go:build verif && cgo && !no_cgo
 
 package crypto
 
